@@ -410,8 +410,7 @@ func runC03(c *Ctx) {
 			seed := rg.U64()
 			short := i%3 == 0
 			rds = append(rds, rd{fmt.Sprintf("random/short=%v", short), func() io.Reader {
-				r := mon.NewRNG(seed)
-				return &mon.RecReader{Src: r.Fill, Short: short, KeepLog: true}
+				return &mon.RecReader{Src: mon.StreamSrc(seed), Short: short, KeepLog: true}
 			}})
 		}
 		// reader contents at the edges of every plausible reduction rule: the 40 bytes read as an integer b = q*m + r for
@@ -451,6 +450,9 @@ func runC03(c *Ctx) {
 			var k1, k2 *sm2.PrivateKey
 			var e1, e2 error
 			r1, r2 := r.mk(), r.mk()
+			if rr2, ok := r2.(*mon.RecReader); ok && r.cls[:3] == "ran" {
+				rr2.Short = !rr2.Short // same byte stream, other chunking: the key must be the same
+			}
 			if pi := mon.Guard(func() { k1, e1 = sm2.GenerateKey(r1); k2, e2 = sm2.GenerateKey(r2) }); pi != nil {
 				rep.Violation("C03/GenerateKey/panic/"+pi.Func, pi.Value, map[string]interface{}{"reader": r.cls})
 				continue
